@@ -375,6 +375,7 @@ def run_family(ctx, focus, pfile):
                 kw = {'beta': rng.random() < 0.7, 'pruning': rng.choice([1, 2, 3, 50])}
                 if not kw['beta']:
                     kw['underflow'] = 0.6       # filter off: tags whose probability underflows to 0 are still limited by pruning_size only
+                    kw['pruning'] = rng.choice([1, 2, 2, 3, 3, 50])      # ... so the cut often falls among them
             if focus in ('c02', 'c09', 'c10', 'c16') and rng.random() < 0.35:
                 kw['head_left'] = 'mixed'       # these properties quantify over every grammar, head-uniform or not
                 ctx.count('grammar:mixed_heads')
